@@ -53,6 +53,8 @@ for r in rows:
         add(r, "DB row `%s`: the first immediate of ADDG/SUBG is uimm6 * 16" % inst, ops=rep(2, "#imm1*16"))
     elif n == "ror" and ops == ["Xd", "Xn", "#n"]:
         add(r, "DB row `%s`: ROR (immediate) is EXTR Xd, Xn, Xn, #n = 10010011|110|..., the row has 111 (bit 21 must be 0)" % inst, xor=0x00200000)
+    elif n == "prfm" and ops[-1] == "[Xn|SP, #offZ]":
+        add(r, "DB row `%s`: the unsigned offset of PRFM (immediate) is scaled by 8 like LDR Xt" % inst, ops=rep(len(ops) - 1, "[Xn|SP, #offZ*8]"))
     elif n == "subps":
         add(r, "DB row `%s` carries the opcode of SUBP (SUBPS sets bit 29)" % inst, xor=0x20000000)
     elif n in ("ldset", "ldseta", "ldsetal", "ldsetl") and ops[0] == "Xs" and ops[1] == "Wd":
